@@ -44,6 +44,7 @@ def main():
             if rr:
                 rr.install()
                 rr.install_vec()
+                rr.install_rpd()
             ns = dict(base_ns)
             try:
                 exec(spec['code'], ns)
